@@ -147,7 +147,7 @@ def source_bytes(src):
     return _BASE[key]
 
 
-def _consume(gen_, mode, j, frames):
+def _consume(gen_, mode, j, frames, on_frame=None):
     """The caller side of load_many.  Appends to frames; returns True when the generator finished."""
     if mode == "list":
         frames.extend(list(gen_))
@@ -155,6 +155,8 @@ def _consume(gen_, mode, j, frames):
     if mode == "exhaust":
         for d in gen_:
             frames.append(d)
+            if on_frame is not None:
+                on_frame(len(frames) - 1)
         return True
     # abandon after j frames
     for d in gen_:
@@ -166,7 +168,7 @@ def _consume(gen_, mode, j, frames):
     return False
 
 
-def run_load(name, fmt, api, data, consume=("exhaust", 0), knobs=None, budget=None, cover=None):
+def run_load(name, fmt, api, data, consume=("exhaust", 0), knobs=None, budget=None, cover=None, endlines=None):
     """Load `data` stored under `name` through the real API.  Returns a record."""
     import iodata
 
@@ -185,7 +187,12 @@ def run_load(name, fmt, api, data, consume=("exhaust", 0), knobs=None, budget=No
             else:
                 g = iodata.load_many(name, fmt=fmt)
                 try:
-                    rec["finished"] = _consume(g, consume[0], consume[1], rec["frames"])
+                    on_frame = None
+                    if endlines is not None:
+                        def on_frame(i):
+                            lit_ = _SPY[-1] if _SPY else None
+                            endlines.append(getattr(lit_, "lineno", None))
+                    rec["finished"] = _consume(g, consume[0], consume[1], rec["frames"], on_frame)
                 finally:
                     g = None  # "drop": the last reference goes away here
         except BaseException as exc:  # noqa: BLE001 - judged by the oracle
@@ -193,6 +200,7 @@ def run_load(name, fmt, api, data, consume=("exhaust", 0), knobs=None, budget=No
     gc.collect()
     rec["steps"] = st.steps
     rec["warnings"] = [type(x.message).__name__ for x in wlist]
+    rec["warning_msgs"] = [f"{type(x.message).__name__}:{str(x.message).rsplit(' (', 1)[0]}" for x in wlist]
     rec["handles_open"] = len(disk.open_handles())
     hs = [h for h in disk.handles if isinstance(h, seams.SimTextR)]
     rec["nlines"] = sum(h.nlines for h in hs)
